@@ -159,7 +159,8 @@ def mkBody (sig : Sig) (b : String) : Option (List Val → BodyOut) :=
     that the regenerated `Gen.C19.runShape` has it): if the source loses its recover, the run shows a
     concrete crashing input instead of agreeing with the broken code. -/
 def requiredShape : Shape :=
-  { errIsNamedResult := true, firstStmtIsDefer := true, closureCallsRecover := true, closureAssignsErr := true }
+  { errIsNamedResult := true, firstStmtIsDefer := true, closureCallsRecover := true, closureAssignsErr := true,
+    arityChecked := true }
 
 def runCase (payload : String) : String :=
   match payload.splitOn " " with
